@@ -1,15 +1,20 @@
 //! vx: runtime monitors for rust-osdev/x86_64 (see /verif/DESIGN.md).
 #![feature(step_trait)]
-#![feature(abi_x86_interrupt)]
+#![cfg_attr(target_arch = "x86_64", feature(abi_x86_interrupt))]
 #![allow(clippy::all)]
 
 mod gen;
+#[cfg(target_arch = "x86_64")]
 mod hwwalk;
+#[cfg(target_arch = "x86_64")]
 mod irqsim;
+#[cfg(target_arch = "x86_64")]
 mod refmodel;
+#[cfg(target_arch = "x86_64")]
 mod simphys;
-#[cfg(not(miri))]
+#[cfg(all(not(miri), target_arch = "x86_64"))]
 mod softmmu;
+#[cfg(target_arch = "x86_64")]
 mod trapemu;
 mod props;
 mod util;
